@@ -17,5 +17,6 @@ func SchedReset()                    {}
 func SchedSet(occurrence, code int)  {}
 func SchedSetRandom(seed uint64)     {}
 func SchedSetRandomSites(s []string) {}
+func SchedSetReverseSites(s []string) {}
 func SchedLog() []SchedOcc           { return nil }
 func SchedCalls() int                { return 0 }
